@@ -398,12 +398,19 @@ func runCase(idx int, raw json.RawMessage) (res batch.Result) {
 	// the feature that pins a defect is the FSM exit path the cause drives; cause, kind and chain are in the detail
 	exit := exitPath(c.Cause)
 	pr.feat = func() map[string]string {
+		f := vf.F("exit", exit)
 		if c.Other != nil {
 			// the order of registration is in the detail
 			l, _, _ := strings.Cut(c.Other.label(cfg.RRClient), ",")
-			return vf.F("exit", exit, "other_session", l)
+			f["other_session"] = l
 		}
-		return vf.F("exit", exit)
+		if c.Hide != "" {
+			f["reannounced_ineligible"] = c.Hide
+		}
+		if cfg.V6 && cfg.OmitMPv6 {
+			f["ipv6"] = "configured-not-negotiated"
+		}
+		return f
 	}
 
 	srv := speaker.NewServer(speaker.ServerConfig{RouterID: routerID})
